@@ -151,7 +151,19 @@ class Runner:
                             st.ContextAssociation = self.pm_types.ContextAssociation.ASSOCIATED
                             st.BindingMdibVersion = tr.new_mdib_version
                         tr.write_entity(ent, [st.Handle])
+                    elif op.get('add_state') and handle is not None:
+                        handle = self.real_handle(handle)
+                        # the application builds the container itself and hands it to add_state
+                        st = self.pm.data_model.mk_state_container(self.pm.descriptions.handle.get_one(dh))
+                        st.Handle = handle
+                        mdibrun.set_payload(st, n, self.pm_types)
+                        if assoc:
+                            st.ContextAssociation = self.pm_types.ContextAssociation.ASSOCIATED
+                            st.BindingMdibVersion = tr.new_mdib_version
+                            st.BindingStartTime = mdibrun._real_time.time()
+                        tr.add_state(st)
                     else:
+                        handle = self.real_handle(handle) if 'existing-ctx-handle' in op.get('tag', []) else handle
                         st = tr.mk_context_state(dh, handle, set_associated=bool(assoc))
                         mdibrun.set_payload(st, n, self.pm_types)
                 elif kind == 'get':
